@@ -8,6 +8,7 @@ import (
 	"os"
 	"path/filepath"
 	"strings"
+	"sync/atomic"
 	"time"
 
 	"verif/internal/h"
@@ -112,6 +113,8 @@ func runCancelCase(c *h.Ctx, sp cancelSpec, race bool, count bool) string {
 	return verdict
 }
 
+var confirmedSlow int32
+
 func c12(c *h.Ctx) {
 	c.Level = "fault_enumeration"
 	c.Rule = "fault enumeration, one child process per injection: Cancel injected {before any run, parked at the before-hook, during command (sleep / shell busy loop / child ignoring SIGINT), exactly between two commands, before the output is stored, after the last task finished, from a stage-condition error} x 0..4 tasks in flight x 0..3 stages waiting x {TaskRunner.Cancel, Scheduler.Cancel} x {once, twice in a row, three concurrent callers}, runs parked at verif hook points so that the injection lands exactly there; free-running variant with seeded cancel times under the race detector. Monitors: parent observes crash / dead-lock dump; trace markers CANCEL_CALL / CANCEL_RET vs S:/E: tokens; spawned pids gone; interrupted or unstarted task must not report success; a Run after Cancel must fail. non-trivial = every distinct injection spec"
@@ -176,7 +179,9 @@ func c12(c *h.Ctx) {
 		if v == "crash" {
 			crashes++
 		}
-		if v == "suspect" {
+		if v == "suspect" && atomic.LoadInt32(&confirmedSlow) >= 3 {
+			c.Inconclusive(fmt.Sprintf("case %d exceeded its time bound; not re-confirmed (three such cases are already confirmed and reported)", i))
+		} else if v == "suspect" {
 			again := 0
 			for k := 0; k < 3; k++ {
 				if runCancelCase(c, specs[i], false, false) == "suspect" {
@@ -184,6 +189,7 @@ func c12(c *h.Ctx) {
 				}
 			}
 			if again == 3 {
+				atomic.AddInt32(&confirmedSlow, 1)
 				c.Violate(fmt.Sprintf("not-returned-in-bound/%s/in-flight=%d", specs[i].Point, specs[i].K), "cancellation case exceeded its time bound in four consecutive runs", specs[i])
 			} else {
 				c.Inconclusive(fmt.Sprintf("case %d exceeded its time bound once, not reproduced", i))
